@@ -21,12 +21,14 @@ def phase_covariance(r, r0, L0):
         L0 (float): Outer scale of turbulence in metres
     """
     # Make sure everything is a float to avoid nasty surprises in division!
-    r = numpy.float32(r)
+    # (double precision: in single precision 2 * pi * 1e-40 / L0 underflows to 0 for L0 of 1e6 and more,
+    # and the covariance at r = 0 became 0 * inf = NaN)
+    r = numpy.float64(r)
     r0 = float(r0)
     L0 = float(L0)
 
     # Get rid of any zeros
-    r += 1e-40
+    r = r + 1e-40
 
     A = (L0 / r0) ** (5. / 3)
 
